@@ -13,7 +13,11 @@ program *before* any code is generated, in the ORDER in which the real code deci
    macro DEFINITION is kept as tokens and not parsed here; the first `include_source!` ends parsing
    (`ascent_source!`: error; the other macros: the rest is re-submitted through the included macro, so
    nothing else is decided in this invocation);
-2. `desugar_ascent_program`: macro expansion rule by rule (body items lazily in order, then the heads),
+2. `desugar_ascent_program`: macro expansion rule by rule (body items in order, then the heads; EVERYWHERE —
+   rule bodies, invoked macro bodies, the alternatives of a disjunction and their items, rule heads, the bodies of
+   head macros — left to right up to the FIRST error, `punctuated_try_map` / `collect::<Result<_>>`: since fix
+   deae510; before it heads and disjunctions expanded all their items before looking for an error, which made a
+   macro invoking itself twice per level cost 2^100 expansions — finding FM8),
    depth budget 100 shared by macro invocations and disjunction nesting; an invocation looks the macro up,
    matches the arguments, then PARSES the substituted body (here an empty disjunction anywhere in the body
    is reported, before any nested invocation is expanded), then expands the items of the body; `flatten_punctuated`
@@ -26,7 +30,11 @@ program *before* any code is generated, in the ORDER in which the real code deci
    declaration with that name); an aggregation is first tested for "aggregated variable `z` must be an
    argument of the aggregated relation" (since fix 5862f99, at the START of the `Agg` arm: before the
    shadowing test of its pattern and before `prog_get_relation`; formerly `find_position(..).unwrap()`
-   panicked in code generation — finding FM5); then `AscentConfig::new` (program attributes), then the
+   panicked in code generation — finding FM5), then its bound arguments are tested like binders against the
+   grounded variables ("`y` shadows another variable with the same name", also when a bound argument is repeated;
+   since fix 4509942, on a clone: they are NOT added to the grounded variables; formerly `c(y), agg m = min(y) in a(y)`
+   was accepted — finding FM2), then the shadowing test of its pattern, then `prog_get_relation`;
+   then `AscentConfig::new` (program attributes), then the
    declarations (`get_ds_attr`, "`lattice`s cannot have custom data structure providers"), then the
    struct / impl signatures ("the identifiers of struct and impl must match", "the generic parameters of
    struct (..) and impl (..) must match": since fix dfbe0be; formerly two `assert_eq!` of `compile_mir`
@@ -112,18 +120,6 @@ def mapLazy {α β : Type} (f : α → Except Err β) : List α → Except Err (
       match mapLazy f rest with
       | .error e => .error e
       | .ok bs => .ok (b :: bs)
-
-def firstPanic {α : Type} : List (Except Err α) → Option Err
-  | [] => none
-  | .error e :: rest => if e.isPanic then some e else firstPanic rest
-  | .ok _ :: rest => firstPanic rest
-
-/-- `punctuated_map(xs, f).pipe(punctuated_try_unwrap)`: every element is evaluated (so a panic anywhere
-wins), then the first error in order is returned -/
-def collectEager {α : Type} (rs : List (Except Err α)) : Except Err (List α) :=
-  match firstPanic rs with
-  | some e => .error e
-  | none => collectLazy rs
 
 /-! ## Summaries -/
 
@@ -304,7 +300,10 @@ def depthBudget : Nat := 100
 /-- `body_item_expand_macros`; `π` is the position of the item (the tag given to the private names of an
 invocation at that position).  An invocation: `macros.get` ("undefined macro"), `invoke_macro` (arguments),
 `Parser::parse2(.., macro_invoked)` (the substituted body is parsed as a whole: "empty disjunction" for a `()`
-anywhere in it, before any item of the body is expanded), then the items of the body in order. -/
+anywhere in it, before any item of the body is expanded), then the items of the body in order.  A disjunction:
+the alternatives left to right, the items of each alternative left to right, the first error is returned at once
+(`punctuated_try_map` twice, since fix deae510; formerly every item of every alternative was expanded before an
+error was looked for — finding FM8). -/
 def expandItem (ms : List MacroDef) : Nat → Env → List Nat → Item → Except Err (List Item)
   | 0, _, _, _ => .error .recMacro
   | fuel + 1, σ, π, .mac name args =>
@@ -321,10 +320,10 @@ def expandItem (ms : List MacroDef) : Nat → Env → List Nat → Item → Exce
         | .error e => .error e
         | .ok inner => flattenP inner d.trailing
   | fuel + 1, σ, π, .disj alts =>
-    match collectEager (alts.zipIdx.map fun a =>
-        match collectEager (a.1.zipIdx.map fun x => expandItem ms fuel σ (π ++ [a.2, x.2]) x.1) with
+    match mapLazy (fun a =>
+        match mapLazy (fun x => expandItem ms fuel σ (π ++ [a.2, x.2]) x.1) a.1.zipIdx with
         | .error e => .error e
-        | .ok inner => flattenP inner false) with
+        | .ok inner => flattenP inner false) alts.zipIdx with
     | .error e => .error e
     | .ok alts' => .ok [.disj alts']
   | _ + 1, σ, _, .clause rel args conds => .ok [.clause rel (args.map σ.arg) (conds.map σ.binder)]
@@ -332,7 +331,10 @@ def expandItem (ms : List MacroDef) : Nat → Env → List Nat → Item → Exce
   | _ + 1, σ, _, .agg rel args pat bound => .ok [.agg rel (args.map σ.arg) (σ.binder pat) (σ.vars bound)]
   | _ + 1, _, _, .neg rel n => .ok [.neg rel n]
 
-/-- `head_item_expand_macros` -/
+/-- `head_item_expand_macros`: the items of the expansion left to right, the first error is returned at once
+(`punctuated_try_map`, since fix deae510; formerly `punctuated_map` + `punctuated_try_unwrap`: all of them were
+expanded before an error was looked for — the same answer after 2^100 steps for a macro invoking itself twice,
+finding FM8) -/
 def expandHead (ms : List MacroDef) : Nat → HItem → Except Err (List HItem)
   | 0, _ => .error .recMacro
   | fuel + 1, .mac name args =>
@@ -343,17 +345,18 @@ def expandHead (ms : List MacroDef) : Nat → HItem → Except Err (List HItem)
       else if args.length < d.params.length then .error .macroArgs
       else if d.params.length < args.length then .error .unexpectedToken
       else
-        match collectEager (d.hbody.map (expandHead ms fuel)) with
+        match mapLazy (expandHead ms fuel) d.hbody with
         | .error e => .error e
         | .ok inner => flattenP inner d.trailing
   | _ + 1, .clause rel n => .ok [.clause rel n]
 
-/-- `rule_expand_macro_invocations`: the body (a `Vec`, no punctuation), then the heads -/
+/-- `rule_expand_macro_invocations`: the body (a `Vec`, no punctuation), then the heads; both left to right up to
+the first error (`punctuated_try_map` for the heads since fix deae510) -/
 def expandRule (ms : List MacroDef) (r : Rule) : Except Err Rule :=
   match mapLazy (fun x => expandItem ms depthBudget Env.top [x.2] x.1) r.body.zipIdx with
   | .error e => .error e
   | .ok inner =>
-    match collectEager (r.heads.map (expandHead ms depthBudget)) with
+    match mapLazy (expandHead ms depthBudget) r.heads with
     | .error e => .error e
     | .ok hs =>
       match flattenP hs r.htrailing with
@@ -486,7 +489,11 @@ def aggBoundOk : Ev → Bool
   | _ => true
 
 /-- one body item of `compile_rule_to_ir_rule`; the `Agg` arm starts with the test of the bound arguments
-(fix 5862f99), before the shadowing test of the pattern and before `prog_get_relation` -/
+(fix 5862f99: each is an identifier argument of the aggregated relation), then the bound arguments are tested like
+binders against the variables grounded so far (fix 4509942: `extend_grounded_vars` on a CLONE of the grounded
+variables — "shadows another variable", also for a repeated bound argument; they stay local: the grounded set is
+not changed by this test), then the shadowing test of the pattern (against the grounded variables WITHOUT the
+bound arguments), then `prog_get_relation` -/
 def hirEv (ds : List Decl) (g : List Var) : Ev → Except Err (List Var)
   | .clause rel args conds =>
     match getRelation ds rel args.length with
@@ -496,6 +503,9 @@ def hirEv (ds : List Decl) (g : List Var) : Ev → Except Err (List Var)
   | .agg rel args pat bound =>
     if !aggBoundOk (.agg rel args pat bound) then .error .aggBoundArg
     else
+    match extendGrounded g bound with
+    | .error e => .error e
+    | .ok _ =>
     match extendGrounded g pat.seen with
     | .error e => .error e
     | .ok g' =>
